@@ -149,7 +149,9 @@ def run(ck, rng):
         if vt[0] == "bad":
             if r == "ok":
                 bad = "malformed line %s (%s) but nil returned" % (vt[1], vt[2])
-            elif r.startswith("err:format:") and r.split(":")[2] != vt[3] and not (op.startswith("m") and vt[2] in ("jump", "not_multiple")):
+            elif r.startswith("err:format:") and r.split(":")[2] != vt[3] and not op.startswith("m"):
+                # (massive mode: blocks are parsed concurrently through one parser, so WHICH offending row is named first is
+                # schedule-dependent -- e.g. a rootless first block whose indentation also fixes the unit; error-iff is kept)
                 bad = "format error names row %s, first malformed row is %s" % (r.split(":")[2], vt[3])
             elif not r.startswith("err:"):
                 bad = "abnormal: " + r
